@@ -163,6 +163,15 @@ func runC06(res *Result, d *Driver, tier string, seed uint64) {
 					}
 				}
 			}
+			// the driver also says whether the hand model of the shuffle (subject of C06_shuffle_exact) agrees with the regenerated child
+			hand := "1"
+			if i := strings.Index(ans, " hand="); i >= 0 {
+				hand = ans[i+6:]
+				ans = ans[:i]
+			}
+			if hand != "1" {
+				res.Mismatch(Mismatch{Kind: "differential", What: "hand model Model/FdShuffle.shuffle vs regenerated forkAndExecInChild (C06_hand_model_tie)", Input: line, Model: "hand=" + hand, Oracle: "unknown"})
+			}
 			if ans != want {
 				key := ""
 				res.Mismatch(Mismatch{Kind: "oracle", What: "descriptor table at exec is exactly the caller's list; exec fd preserved; caller unchanged (C06, on the regenerated child)", Input: line, Impl: ans, Model: want, Oracle: "violates", Key: key})
